@@ -282,8 +282,9 @@ pub fn gen_case(t: &mut Tape, forms: &[Form], o: &GenOpts) -> Option<NCase> {
     // RSP steering
     let stackish = matches!(form.class, Class::Stack | Class::CallRet) || o.steer_rsp;
     if stackish {
-        let c = t.weighted(&[50, 6, 6, 6, 4, 3, 3, 2]);
+        let c = t.weighted(&[50, 6, 6, 6, 4, 3, 3, 2, 5]);
         gpr[4] = match c {
+            8 => 0x3000_0000 - 16 + 2 * t.below(16), // around a 64 KiB boundary inside the stack: SP carries
             0 => STK_BASE + 0x100 + 8 * t.below((STK_LEN as u64 - 0x200) / 8),
             1 => STK_BASE + 0x100 + t.below(STK_LEN as u64 - 0x200), // misaligned
             2 => STK_BASE + STK_LEN as u64 - 8 * t.below(3),         // top slots / one past the end
